@@ -161,7 +161,7 @@ class Scenario:
 
     # -- operations: each mutates the LIVE simulation through its public API and the record cfg
     def ops(self):
-        return self.model_ops + ["rho", "rayleigh", "translate", "rotate", "symmetry", "setcoord", "nudge", "replacemesh", "rebc",
+        return self.model_ops + ["rho", "rayleigh", "translate", "rotate", "symmetry", "setcoord", "nudge", "query", "replacemesh", "rebc",
                                  "algo", "solve_save", "setiter0"] + self.extra_ops
 
     def apply(self, simu, cfg, op, live):
@@ -205,6 +205,21 @@ class Scenario:
             y[:, 0] = 1.4 * x[:, 0] + 0.2 * x[:, 1]
             y[:, 1] = 0.8 * x[:, 1]
             mesh.coord = y
+        elif op == "query":
+            # read-only use of the mesh between two assemblies: point location / evaluation at coordinates, boundary normals,
+            # Gauss coordinates (these fill the same per-group caches the matrices are built from)
+            from EasyFEA.FEM._utils import MatrixType
+
+            g0 = mesh.Get_list_groupElem()[0]
+            pts = np.asarray(mesh.coord)[np.asarray(g0.connect)[: min(3, g0.Ne)]].mean(axis=1)
+            vals = np.arange(mesh.Nn, dtype=float)
+            try:
+                mesh.Evaluate_dofsValues_at_coordinates(pts, vals)
+            except Exception:
+                pass  # point location has its own property (C08); here only its side effects matter
+            for g in mesh.Get_list_groupElem():
+                g.Get_GaussCoordinates_e_pg(MatrixType.mass)
+                g.Get_jacobian_e_pg(MatrixType.mass, absoluteValues=False)
         elif op == "nudge":
             # a very small, non-uniform move of the nodes (shape-sensitivity / finite-difference use): far above round-off
             # (2e-6 relative) but below the default tolerances of np.allclose
